@@ -94,6 +94,24 @@ def formatter_layout(chk) -> Dict[str, Tuple[int, int]]:
     return got
 
 
+def _writer_reader_columns(chk, lay: Dict[str, Tuple[int, int]]) -> None:
+    """Sibling agreement: the columns a field is written to (found on probe rows) are the columns parse_pdb_atoms reads it from."""
+    from checks import c08
+
+    repo = chk.repo
+    sp = spec("pdb_columns.json")
+    fi = repo.func(M, "_format_pdb_atom_line") if repo.has_func(M, "_format_pdb_atom_line") else repo.func(M, "write_pdb")
+    rd, how = c08.reader_slices(chk, "v2")
+    if how == "none":
+        chk.error("writer-reader-columns", fi.where, "the columns parse_pdb_atoms takes its fields from could not be established")
+        return
+    for field, want in sp["atom"].items():
+        g = lay.get(field)
+        r = rd.get(field)
+        inside = g is not None and r is not None and r[0] <= g[0] and g[1] <= r[1]
+        chk.expect(inside, "writer-reader-columns", fi.where, f"{field}: written inside the columns the reader slices ({r})", f"{field}: writer puts it at {g}, reader takes {r}", f"{M}:columns:{field}", expected=list(r) if r else None, found=list(g) if g else None)
+
+
 def check_formatter_details(chk) -> None:
     repo = chk.repo
     fi = repo.func(M, "_format_pdb_atom_line")
@@ -102,6 +120,10 @@ def check_formatter_details(chk) -> None:
     for var, want in prec.items():
         e = src.get(var)
         ok = isinstance(e, ast.JoinedStr) and len(e.values) == 1 and isinstance(e.values[0], ast.FormattedValue) and e.values[0].format_spec is not None and "".join(x.value for x in e.values[0].format_spec.values if isinstance(x, ast.Constant)) == want
+        if not ok and not (isinstance(e, ast.JoinedStr) and len(e.values) == 1 and isinstance(e.values[0], ast.FormattedValue)):
+            # another way of formatting a number (%-formatting, format(), str.format, round): this reading cannot tell what it does
+            chk.error("numeric-format", fi.where, f"{var} is not formatted by an f-string with a format spec (`{norm(e)[:60] if e is not None else 'not found'}`): its precision is not read off here")
+            continue
         chk.expect(ok, "numeric-format", fi.where, f"{var} is formatted {want}", f"{var} is not formatted with :{want}", K(fi, f"format:{var}"), found=norm(e) if e is not None else None)
     just = {"serial": "rjust(5)", "res_name": "rjust(3)", "res_seq": "rjust(4)", "element": "rjust(2)", "record_name": "ljust(6)"}
     for var, want in just.items():
@@ -622,9 +644,22 @@ def run(chk) -> None:
     chk.trusted = ["CPython ast", "mmcif writer/reader quoting and tokenising", "pandas dtype coercions", "wwPDB column table"]
     chk.assumptions = ["data fit PDB field widths (the statement's precondition)"]
     chk.robust |= {"writer-layout", "writer-reader-columns", "charge-format", "cif-to-cif", "pdb-record-filter", "pdb-decode-v2", "pdb-slices-agree", "pdb-slices-v2", "value-domain", "null-agreement", "atom-data-keys"}
-    formatter_layout(chk)
-    check_formatter_details(chk)
     from checks import c09e
+
+    # the atom line: decided on the text write_pdb produces for probe rows; the abstract width reading of the formatter's f-strings
+    # (formatter_layout / check_formatter_details) is the fallback when write_pdb is not evaluable
+    lay = None
+    try:
+        lay = c09e.check_atom_line_eval(chk)
+    except AnalysisError:
+        raise
+    except Exception as ex:
+        chk.ok("atom-line-eval", "-", f"evaluation of the atom line failed internally ({type(ex).__name__}: {str(ex)[:60]}): the abstract width reading decides")
+    if lay is None:
+        formatter_layout(chk)
+        check_formatter_details(chk)
+    else:
+        _writer_reader_columns(chk, lay)
 
     evaluated = False
     try:
